@@ -1,10 +1,153 @@
 import StepupModel.Proto
-/-! Driver requests of C16 (`c16 <op> ...`). -/
+import StepupModel.P.Rpc
+/-! Driver requests of C16 (`c16 <op> ...`).
+
+* `enc <id> <body|~>`: hex of `encodeMessage`.
+* `dec <chunk,chunk,...|.>`: the messages read from the chunked stream and how it ends at EOF.
+* `allowed <name> <bind>`: decision over the generated `DirectorHandler` table.
+* `exc <name> <usage> <importable> <ctorOk> <debug>` / `exct <name> <debug>`: class seen by the caller.
+* `conn <table> <bodies> <events>`: the server connection on an event script; one answer token per
+  event: `invoked/writes/cancelled/status`.
+* `client <events>`: the pending table of the asynchronous client.
+-/
 open StepupModel StepupModel.Proto
 
 namespace StepupModel.Drv.C16
+open StepupModel.P.Rpc
+
+def hexGo : List Char → List Nat → Option (List Nat)
+  | [], acc => some acc.reverse
+  | [_], _ => none
+  | a :: b :: rest, acc =>
+    match hexVal a, hexVal b with
+    | some x, some y => hexGo rest ((16 * x + y) :: acc)
+    | _, _ => none
+
+/-- Hex token to bytes (`-` is empty), tail recursive. -/
+def bytesOf (tok : String) : Option Bytes := if tok = "-" then some [] else hexGo tok.toList []
+
+def hexOf (b : Bytes) : String :=
+  if b.isEmpty then "-"
+  else String.ofList (b.foldr (fun x acc => hexDigit (x / 16 % 16) :: hexDigit (x % 16) :: acc) [])
+
+def bodyOf (tok : String) : Option (Option Bytes) :=
+  if tok = "~" then some none else (bytesOf tok).map some
+
+def bodyStr : Option Bytes → String
+  | none => "~"
+  | some b => hexOf b
+
+def listOf {α : Type} (sep : String) (tok : String) (f : String → Option α) : Option (List α) :=
+  if tok = "." then some [] else (tok.splitOn sep).mapM f
+
+def joinOr (sep : String) (l : List String) : String := if l.isEmpty then "." else sep.intercalate l
+
+def msgStr (m : Msg) : String := s!"{m.id}:{bodyStr m.body}"
+
+def decisionStr : Decision → String
+  | .invoke => "invoke" | .unknown => "unknown" | .notAllowed => "notAllowed" | .badArgs => "badArgs"
+
+def parseTableEntry (tok : String) : Option (Name × Bool) :=
+  match tok.splitOn ":" with
+  | [n, f] => do pure (← bytesOf n, f = "1")
+  | _ => none
+
+def parseBodyEntry (tok : String) : Option (Bytes × Req) :=
+  match tok.splitOn ":" with
+  | [b, "c", n, bind] => do pure (← bytesOf b, .call (← bytesOf n) (bind = "1"))
+  | [b, "n"] => do pure (← bytesOf b, .notCall)
+  | _ => none
+
+def parseOutcome (tok : String) : Option Outcome :=
+  match tok.toList with
+  | ['r'] => some .result
+  | ['n'] => some .unpicklable
+  | 'u' :: rest => (String.ofList rest).toNat?.map .usage
+  | 'i' :: rest => (String.ofList rest).toNat?.map .internal
+  | _ => none
+
+def parseEv (tok : String) : Option Ev :=
+  match tok.splitOn ":" with
+  | ["b", h] => (bytesOf h).map .bytes
+  | ["e"] => some .eof
+  | ["s"] => some .stop
+  | ["p"] => some .pause
+  | ["d"] => some .resume
+  | ["l"] => some .lose
+  | ["c", seq, o] => do pure (.complete (← seq.toNat?) (← parseOutcome o))
+  | _ => none
+
+def kindStr : RKind → String
+  | .value => "v"
+  | .failure true (some c) => s!"fu{c}"
+  | .failure false (some c) => s!"fi{c}"
+  | .failure _ none => "fr"
+  | .sentinel => "s"
+
+def failStr : Failure → String
+  | .badHeader => "badHeader" | .notCall => "notCall" | .unpicklable => "unpicklable"
+
+def statusStr (c : Conn) : String :=
+  match c.failed with
+  | some f => "fail:" ++ failStr f
+  | none => if c.finished then "done" else "open"
+
+/-- The observable difference made by one event. -/
+def evOut (old new : Conn) : String :=
+  let inv := (new.invoked.drop old.invoked.length).map fun p => toString p.1.id
+  let wr := (new.sent.drop old.sent.length).map fun r => s!"{r.call.id}:{kindStr r.kind}"
+  let cancelled := (new.cancelled.drop old.cancelled.length).map fun call =>
+    toString (new.invoked.findIdx (·.1 == call))
+  s!"{joinOr "+" inv}/{joinOr "+" wr}/{joinOr "+" cancelled}/{statusStr new}"
+
+def runOut (cfg : Cfg) : Conn → List Ev → List String → List String
+  | _, [], acc => acc.reverse
+  | c, e :: es, acc =>
+    let c' := step cfg c e
+    runOut cfg c' es (evOut c c' :: acc)
+
+def parseCEv (tok : String) : Option CEv :=
+  match tok.splitOn ":" with
+  | ["c", caller] => caller.toNat?.map .call
+  | ["r", id, body] => do pure (.reply (← id.toNat?) (← bodyOf body))
+  | ["b", h] => (bytesOf h).map .bytes
+  | ["g"] => some .badHeader
+  | ["e"] => some .eof
+  | _ => none
+
+def cresStr : CResult → String
+  | .body b => "body=" ++ bodyStr b
+  | .connectionLost => "lost"
+  | .loopError => "looperr"
+
+def b01 (tok : String) : Bool := tok = "1"
 
 def handle : List String → Option String
+  | ["enc", id, body] => do
+    pure (hexOf (encodeMessage ⟨← id.toNat?, ← bodyOf body⟩))
+  | ["dec", chunks] => do
+    let cs ← listOf "," chunks bytesOf
+    let r := runChunks (.buf []) cs
+    let e := match streamEnd r.2 with | .peerGone => "gone" | .error => "error"
+    pure (joinOr "," (r.1.map msgStr) ++ " " ++ e)
+  | ["allowed", name, bind] => do
+    pure (decisionStr (callDecision Generated.Rpc.handlerAttrs (← bytesOf name) (b01 bind)))
+  | ["exc", name, usage, importable, ctor, debug] => do
+    pure (hexOf (clientClass ⟨← bytesOf name, b01 usage, b01 importable, b01 ctor⟩ (b01 debug)))
+  | ["exct", name, debug] => do
+    pure (match excOfTable (← bytesOf name) with
+      | some e => hexOf (clientClass e (b01 debug))
+      | none => "none")
+  | ["conn", table, bodies, events] => do
+    let cfg : Cfg := ⟨← listOf "," table parseTableEntry, ← listOf "," bodies parseBodyEntry⟩
+    let evs ← listOf "," events parseEv
+    pure (joinOr ";" (runOut cfg {} evs []))
+  | ["client", events] => do
+    let evs ← listOf "," events parseCEv
+    let c := crun {} evs
+    let res := c.resolved.map fun p => s!"{p.1}:{cresStr p.2}"
+    let pend := c.pending.map fun p => s!"{p.1}:{p.2}"
+    pure (s!"{joinOr "," res} {joinOr "," pend} {boolStr c.alive} {boolStr c.recvError}")
   | _ => none
 
 end StepupModel.Drv.C16
